@@ -1,22 +1,52 @@
 /*@UNIT
 {
-  "property": "C13",
-  "unit": "to_bin_exact",
-  "function": "pstm_to_unsigned_bin",
-  "source": "crypto/math/pstm.c",
-  "keep_bodies": ["pstm_init_copy", "pstm_init_size", "pstm_copy", "pstm_div_2d", "pstm_rshd", "pstm_zero", "pstm_clamp", "pstm_reverse", "pstm_clear", "pstm_grow"],
-  "assumed": ["malloc / realloc / free (models c13_malloc, c13_realloc, c13_free in c13x.h: NULL or a distinct constant-size block; free has no effect)"],
-  "mode": "bounded",
-  "bounds": "operand of at most NDIG digits (quick 2 = 16 bytes, thorough 3), every digit value and sign",
-  "defs_quick": ["NDIG=2"],
-  "defs_thorough": ["NDIG=3"],
-  "unwind_quick": 8,
-  "unwind_thorough": 9,
-  "unwindset_quick": ["pstm_to_unsigned_bin_wrapped_for_contract_checking.0:18", "pstm_reverse.0:10", "harness.1:20", "harness.2:18", "out_value.0:20"],
-  "unwindset_thorough": ["pstm_to_unsigned_bin_wrapped_for_contract_checking.0:26", "pstm_reverse.0:14", "harness.1:28", "harness.2:26", "out_value.0:28"],
-  "object_bits": 8,
-  "native_replay": true,
-  "timeout": 600
+ "property": "C13",
+ "unit": "to_bin_exact",
+ "function": "pstm_to_unsigned_bin",
+ "source": "crypto/math/pstm.c",
+ "keep_bodies": [
+  "pstm_init_copy",
+  "pstm_init_size",
+  "pstm_copy",
+  "pstm_div_2d",
+  "pstm_rshd",
+  "pstm_zero",
+  "pstm_clamp",
+  "pstm_reverse",
+  "pstm_clear",
+  "pstm_grow"
+ ],
+ "assumed": [
+  "malloc / realloc / free (models c13_malloc, c13_realloc, c13_free in c13x.h: NULL or a distinct constant-size block; free has no effect)"
+ ],
+ "mode": "bounded",
+ "bounds": "operand of at most NDIG digits (quick 2 = 16 bytes, thorough 3), every digit value and sign",
+ "defs_quick": [
+  "NDIG=2"
+ ],
+ "defs_thorough": [
+  "NDIG=3"
+ ],
+ "unwind_quick": 8,
+ "unwind_thorough": 9,
+ "unwindset_quick": [
+  "pstm_to_unsigned_bin_wrapped_for_contract_checking.0:18",
+  "pstm_reverse.0:10",
+  "harness.1:20",
+  "harness.2:18",
+  "out_value.0:20"
+ ],
+ "unwindset_thorough": [
+  "pstm_to_unsigned_bin_wrapped_for_contract_checking.0:26",
+  "pstm_reverse.0:14",
+  "harness.1:28",
+  "harness.2:26",
+  "out_value.0:28"
+ ],
+ "object_bits": 8,
+ "native_replay": true,
+ "timeout": 600,
+ "tier": "thorough"
 }
 @*/
 /* C13.to_bin_exact  export: pstm_to_unsigned_bin(a, b) writes the big-endian bytes of |a| into
